@@ -57,7 +57,7 @@ func C14Race(j *core.Job) {
 			rep.Count("race_reports", 1)
 			if len(rep.Violations) < maxViolationsPerWorker {
 				doc := map[string]any{"Property": "C14", "Layer": "R-race", "Seed": j.Seed, "Batch": b, "First": b * per, "Count": per,
-					"Class": "data race between iterators consumed on different goroutines (race detector; runtime monitoring, not seed-replayable)",
+					"Class":  "data race between iterators consumed on different goroutines (race detector; runtime monitoring, not seed-replayable)",
 					"Report": firstN(stderr.String(), 60)}
 				path := ev.WriteReplay("C14", int64(j.Seed), 800000+b, doc)
 				rep.Violations = append(rep.Violations, ev.Violation{Prop: "C14", Class: doc["Class"].(string), Replay: path})
